@@ -129,7 +129,8 @@ def run_drop(chk):
             uid = z3.Concat(z3.StringVal("not_completed/"), r, z3.StringVal(".json"))
             e.state["shapes"][uid.get_id()] = ("not_completed", r, ".json")
             m = Rec("DataMember", unique_id=uid)
-            selfv = Rec("DataStoreDirectory", suffix="fasta", source=PathV("SRC"), not_completed=[m], _not_completed=[m])
+            selfv = Rec("DataStoreDirectory", suffix="fasta", source=PathV("SRC"), not_completed=[m], _not_completed=[m],
+                        mode=OVERWRITE, _mode=OVERWRITE)
             e.state["m"] = m
             e.state["store"] = selfv
             e.call("drop_not_completed", dict(self=selfv, unique_id=(u if with_id else "")))
@@ -234,14 +235,17 @@ def run_writable(chk):
     # every write* method starts by calling the guard (syntactic frame obligation)
     import ast
     for cls in ("DataStoreABC", "DataStoreDirectory"):
-        for meth in ("write", "write_not_completed", "write_log"):
+        for meth in ("write", "write_not_completed", "write_log", "drop_not_completed"):
             try:
                 node = extract.get(FILE, f"{cls}.{meth}")
             except KeyError:
                 continue
+            if cls == "DataStoreABC" and meth == "drop_not_completed":
+                continue   # abstract: no body
             calls = [ast.unparse(n.func) for n in ast.walk(node) if isinstance(n, ast.Call)]
             guarded = any(c in ("self._check_writable", "super().write", "super().write_not_completed", "super().write_log",
-                                "self._write") for c in calls)
+                                "self._write") for c in calls) or \
+                "self.mode is READONLY" in ast.unparse(node)
 
             def thunk2(guarded=guarded, calls=calls):
                 return ("proved" if guarded else "refuted", "syntactic", 0.0, None,
